@@ -1,26 +1,31 @@
 #!/bin/bash
-# usage: tools/run_seeded.sh [id ...]   for every confirmed seeded change (all, or of the given properties): apply it to /repo,
-# run the check of its property (quick tier), revert, and record the verdict in seeded/RESULTS.md
+# usage: tools/run_seeded.sh [id ...]   for every seeded change (all, or of the given properties): apply it to the tree under
+# test ($VERIF_REPO, default /repo), run the check of its property (quick tier), revert, and record the verdict.
+# With SEEDED_ROWS=<file> the table rows are appended to that file only (used by tools/run_seeded_par.sh, which runs
+# several of these side by side on scratch worktrees and assembles seeded/RESULTS.md); otherwise seeded/RESULTS.md is written.
 set -u
 cd /verif || exit 2
-if [ -n "$(git -C /repo status --porcelain)" ]; then echo "/repo is not clean"; exit 2; fi
+R=${VERIF_REPO:-/repo}
+if [ -n "$(git -C "$R" status --porcelain)" ]; then echo "$R is not clean"; exit 2; fi
 ids=("$@")
 out=seeded/RESULTS.md
-tmp=$(mktemp /verif/.work/seeded.XXXXXX)
-saved=$(mktemp -d /verif/.work/evidence.XXXXXX); cp -p evidence/*.json "$saved"/   # evidence of the unchanged tree is put back afterwards
+mkdir -p /verif/.work
+tmp=${SEEDED_ROWS:-$(mktemp /verif/.work/seeded.XXXXXX)}
+saved=$(mktemp -d /verif/.work/evidence.XXXXXX)   # evidence of the unchanged tree is put back afterwards
 for d in /verif/seeded/C*/*/; do
   id=$(basename "$(dirname "$d")"); name=$(basename "$d")
   if [ ${#ids[@]} -gt 0 ] && [[ ! " ${ids[*]} " =~ " $id " ]]; then continue; fi
   [ -f "$d/patch.diff" ] || continue
+  [ -f "$saved/$id.json" ] || cp -p "evidence/$id.json" "$saved"/ 2>/dev/null
   conf=$(python3 -c "import json,sys; print(json.load(open('$d/meta.json')).get('confirmed'))" 2>/dev/null)
-  if ! git -C /repo apply --check "$d/patch.diff" 2>/dev/null && ! git -C /repo apply --3way --check "$d/patch.diff" 2>/dev/null; then
+  if ! git -C "$R" apply --check "$d/patch.diff" 2>/dev/null && ! git -C "$R" apply --3way --check "$d/patch.diff" 2>/dev/null; then
     echo "| $id | $name | $conf | patch does not apply to the current tree | |" >> "$tmp"; continue
   fi
-  git -C /repo apply "$d/patch.diff" 2>/dev/null || git -C /repo apply --3way "$d/patch.diff" >/dev/null 2>&1
+  git -C "$R" apply "$d/patch.diff" 2>/dev/null || git -C "$R" apply --3way "$d/patch.diff" >/dev/null 2>&1
   t0=$(date +%s)
-  log=$(./check "$id" 2>&1); rc=$?
+  log=$(VERIF_REPO="$R" ./check "$id" 2>&1); rc=$?
   t1=$(date +%s)
-  git -C /repo reset -q --hard HEAD
+  git -C "$R" reset -q --hard HEAD
   v=$(echo "$log" | grep -m1 "^VIOLATION" )
   if [ -n "$v" ]; then
     kind="failing input"; echo "$v" | grep -q "no-failing-input-found" && kind="no-failing-input-found"
@@ -32,13 +37,15 @@ for d in /verif/seeded/C*/*/; do
   fi
   echo "$id $name rc=$rc $(echo "$v" | cut -c1-80)"
 done
-{
-  echo "# Seeded changes against the checks ($(date -u +%F), quick tier, /repo at $(git -C /repo rev-parse --short HEAD))"
-  echo
-  echo "| property | change | confirmed | verdict of ./check <property> | first failing input reported |"
-  echo "|---|---|---|---|---|"
-  sort "$tmp"
-} > "$out"
-rm -f "$tmp"
-cp -p "$saved"/*.json evidence/; rm -rf "$saved"
-git -C /repo status --short
+if [ -z "${SEEDED_ROWS:-}" ]; then
+  {
+    echo "# Seeded changes against the checks ($(date -u +%F), quick tier, tree at $(git -C "$R" rev-parse --short HEAD))"
+    echo
+    echo "| property | change | confirmed | verdict of ./check <property> | first failing input reported |"
+    echo "|---|---|---|---|---|"
+    sort "$tmp"
+  } > "$out"
+  rm -f "$tmp"
+fi
+cp -p "$saved"/*.json evidence/ 2>/dev/null; rm -rf "$saved"
+git -C "$R" status --short
